@@ -29,6 +29,7 @@ def run(chk):
                 jj["starting_step"] = start; jj["prune"] = False; jj["reshape"] = dict(trim_after_sup=True)
                 jj["cfg"] = json.loads(json.dumps(j["cfg"]))
                 for nd in jj["cfg"]["nodes"].values(): nd["delays"] = [max(1, d) for d in nd["delays"]]
+            if i % 2 == 1: jj["record_eps_switch"] = True      # the record is prepared while the shortest other episode is selected (multi-episode graphs)
             jobs.append(jj)
     res = cl.run_jobs(jobs, nproc=6 if quick else 12)
     by = {}
@@ -44,6 +45,7 @@ def run(chk):
             r = res[j["id"]]
             for e, ep in enumerate(r["episodes"]):
                 chk.traces_impl += 1
+                if "record_prepared_on_eps" in ep: chk.feat("record-prepared-on-another-episode")
                 if "record_error" in ep:
                     chk.violation("init_record-raises", f"Graph.init_record({j['record']}) raised {ep['record_error']}", case); continue
                 ex = (sorted(tuple(c) for c in ep["calls"]), ep["final"])
